@@ -137,6 +137,15 @@ def oracle_full(case):
     worst = 0.0
     if not viol:
         worst = check_bins(res, x, y, fs, cfg, mode, pick_bins(nf), viol, "compute")
+    # the one-call wrappers are the same estimator
+    import speckit
+    win = gens.resolve_window(cfg["win"])[0]
+    kw = dict(olap=cfg["olap"], bmin=cfg["bmin"], Lmin=cfg["Lmin"], Jdes=cfg["Jdes"], Kdes=cfg["Kdes"], order=cfg["order"],
+              psll=cfg["psll"], win=win, scheduler=cfg["scheduler"], backend=cfg["backend"])
+    for wname in ("compute_spectrum", "lpsd"):
+        r2 = getattr(speckit, wname)(data, fs, **kw)
+        if len(r2.f) != nf or any(not np.array_equal(np.asarray(getattr(r2, k)), np.asarray(getattr(res, k))) for k in ("f", "L", "XX", "YY", "XY", "M2")):
+            viol.append(V("wrapper_differs_from_analyzer", wrapper=wname))
     nL = len(set(np.asarray(res.L).tolist()))
     nontrivial = nL >= 3 and "kaiser" in cfg["win"]
     labels = ["full:%s,%s,o=%d,%s" % (cfg["backend"], cfg["scheduler"], cfg["order"], mode), "win:" + cfg["win"],
